@@ -474,12 +474,8 @@ def write(spec, root):
     return base
 
 
-def load(spec, root):
-    '''write + scan with the real dawgie.pl.scan; returns factories dict
-
-    The engine's modules are only ever imported through the scan (classes
-    register themselves during the scan and at no other time).
-    '''
+def prepare(spec, root):
+    '''write the engine and point dawgie.context at it (no import yet)'''
     import importlib  # pylint: disable=import-outside-toplevel
     import sys  # pylint: disable=import-outside-toplevel
     import dawgie.context  # pylint: disable=import-outside-toplevel
@@ -496,4 +492,17 @@ def load(spec, root):
     dawgie.context.ae_base_path = base
     dawgie.context.ae_base_package = spec['pkg']
     dawgie.pl.scan.reset(spec['pkg'])
+    sys.modules.pop(spec['pkg'], None)
+    return base
+
+
+def load(spec, root):
+    '''write + scan with the real dawgie.pl.scan; returns factories dict
+
+    The engine's modules are only ever imported through the scan (classes
+    register themselves during the scan and at no other time).
+    '''
+    import dawgie.pl.scan  # pylint: disable=import-outside-toplevel
+
+    base = prepare(spec, root)
     return dawgie.pl.scan.for_factories(base, spec['pkg'])
